@@ -100,7 +100,9 @@ class World(object):
         if here != os.path.join(repo, 'pyspike'):
             raise HarnessError("pyspike imported from %s, expected %s" % (here, repo))
         self.spk = pyspike
-        pyspike.disable_backend_warning = True
+        # pyspike.disable_backend_warning is left as the library sets it (False until the first fallback):
+        # the warning it prints is captured per operation, and a change that (mis)uses the flag as a
+        # backend switch must see the values real processes see
         import pyspike.cython.python_backend as pb
         import pyspike.cython.directionality_python_backend as dpb
         self.pyb = {'python_backend': pb, 'directionality_python_backend': dpb}
@@ -362,7 +364,6 @@ class World(object):
     @contextlib.contextmanager
     def run_context(self, plan, events=None, shadow=None):
         self.plan, self.events, self.shadow = plan, events, shadow
-        self.spk.disable_backend_warning = True
         self.install()
         try:
             yield self
